@@ -27,13 +27,18 @@ cur == Log[l]
 Judged == cur.obs /\ cur.refOK
 Polled == cur.op \in {"Open", "Poll", "TT", "TTReset"} /\ cur.res = "ok"
 
-\* every page of the restored database is served with the restored content (a read error is judged by Available)
-Served_ == Judged =>
-  \A p \in 1..cur.refN : p <= Len(cur.pg) /\ (cur.pg[p] = cur.ref[p] \/ cur.pg[p] = -1)
-\* right after a successful open / poll every page can be fetched
+\* Every page of the restored database is served with the restored content.  The kinds of violation are told apart
+\* (the table in Vfs.tla / c18.py says which known finding may explain which kind):
+\*   ServedMissing  the VFS has no index entry for the page ("page not found")
+\*   ServedStale    it serves other bytes than the restore (or a short read)
+\*   Available      right after a successful open / poll a page cannot be fetched (its file is gone)
+\*   SizeBig/Small  FileSize # commit x page size (not judged while a reader pins an older view: FileSize counts
+\*                  pending pages)
+ServedMissing_ == Judged => \A p \in 1..cur.refN : p <= Len(cur.pg) => cur.pg[p] # 0
+ServedStale_ == Judged => \A p \in 1..cur.refN : p <= Len(cur.pg) /\ (cur.pg[p] = cur.ref[p] \/ cur.pg[p] \in {0, -1})
 Available_ == (Judged /\ Polled /\ ~cur.locked) => \A p \in 1..cur.refN : p > Len(cur.pg) \/ cur.pg[p] # -1
-\* file size = commit x page size (not judged while a reader pins an older view: FileSize counts pending pages)
-FileSizeOK_ == (Judged /\ ~cur.locked) => (cur.size = cur.refN /\ cur.sizeRem = 0)
+SizeBig_ == (Judged /\ ~cur.locked) => (cur.size <= cur.refN /\ cur.sizeRem = 0)
+SizeSmall_ == (Judged /\ ~cur.locked) => cur.size >= cur.refN
 \* a time-travel view (SetTargetTime) is the timestamp restore for that time
 TimeTravelView_ == (Judged /\ cur.tt # 0) =>
   (cur.size = cur.refN /\ \A p \in 1..cur.refN : p <= Len(cur.pg) /\ cur.pg[p] = cur.ref[p])
@@ -60,8 +65,10 @@ Shape == (IF HzV1_ THEN "_V1" ELSE "") \o (IF HzV2_ THEN "_V2" ELSE "") \o
          (IF HzV3_ THEN "_V3" ELSE "") \o (IF HzV4_ THEN "_V4" ELSE "")
 -----------------------------------------------------------------------------
 V(name, ok) == ok \/ PrintT(<<"VERDICT", name \o Shape, l, cur.t, cur.i>>)
-Served == V("Served", Served_)
+ServedMissing == V("ServedMissing", ServedMissing_)
+ServedStale == V("ServedStale", ServedStale_)
 Available == V("Available", Available_)
-FileSizeOK == V("FileSizeOK", FileSizeOK_)
+SizeBig == V("SizeBig", SizeBig_)
+SizeSmall == V("SizeSmall", SizeSmall_)
 TimeTravelView == V("TimeTravelView", TimeTravelView_)
 ====
